@@ -72,7 +72,59 @@ VALID_RULE = re.compile(r"[!-~]+\Z")          # non-empty, printable ASCII witho
 
 # ------------------------------------------------------------------ implementation adapter
 
-def build(net):
+def _molval(m):
+    """molecule label spec -> Python value: a plain str, or a tagged non-string value (labels are 'Any' in the API)."""
+    if isinstance(m, str):
+        return m
+    t = m[0]
+    if t == "i":
+        return int(m[1])
+    if t == "f":
+        return float(m[1])
+    if t == "b":
+        return bool(m[1])
+    if t == "t":
+        return tuple(m[1])
+    if t == "n":
+        return None
+    raise AssertionError(m)
+
+
+def _molenc(v):
+    """injective text form of a molecule label (the model carries labels as opaque strings)"""
+    if isinstance(v, str):
+        return "s:" + v
+    if isinstance(v, bool):
+        return "b:%r" % v
+    if isinstance(v, int):
+        return "i:%d" % v
+    if isinstance(v, float):
+        return "f:%r" % v
+    if isinstance(v, tuple):
+        return "t:%r" % (v,)
+    if v is None:
+        return "n:"
+    return "?:%r" % (v,)
+
+
+def _apply_edit(H, ed):
+    try:
+        k = ed[0]
+        if k == "add":
+            H.add_rxn([tuple(p) for p in ed[3]], [tuple(p) for p in ed[4]], rule=(ed[2] or None), edge_id=ed[1])
+        elif k == "rm_rxn":
+            H.remove_rxn(ed[1])
+        elif k == "rm_sp":
+            H.remove_species(ed[1], prune_orphans=ed[2])
+        elif k == "mol":
+            H.assign_mol(ed[1], _molval(ed[2]))
+        else:
+            raise AssertionError(ed)
+    except (KeyError, ValueError):
+        pass
+
+
+def build(net, edits=()):
     from synkit.CRN.Hypergraph.hypergraph import CRNHyperGraph
     H = CRNHyperGraph()
     for x in net.get("kept", []):
@@ -88,10 +140,65 @@ def build(net):
             pass
     for s, m in net.get("mol", []):
         try:
-            H.assign_mol(s, m)
+            H.assign_mol(s, _molval(m))
         except KeyError:
             pass
+    for ed in edits:
+        _apply_edit(H, ed)
     return H
+
+
+def _scramble(objs):
+    """The caller edits what earlier calls returned (networks, sides, graphs, line lists) in place.  Nothing returned by a
+    converter may share state with the source network, with a cache, or with a later result."""
+    import networkx as nx
+    from synkit.CRN.Hypergraph.hypergraph import CRNHyperGraph
+    from synkit.CRN.Hypergraph.rxn import RXNSide
+    for o in objs:
+        try:
+            if isinstance(o, CRNHyperGraph):
+                for e in list(o.edges.values()):
+                    for side in (e.reactants, e.products):
+                        ks = sorted(side.keys())
+                        if ks:
+                            side[ks[0]] = side[ks[0]] + 5
+                        side["__z"] = 3
+                sp = sorted(o.species)
+                if sp:
+                    o.remove_species(sp[0])
+                o.species_to_mol.clear()
+                for x in sorted(o.species)[:1]:
+                    o.species_to_mol[x] = "__m"
+                if o.edges:
+                    o.remove_rxn(sorted(o.edges)[0])
+            elif isinstance(o, RXNSide):
+                ks = sorted(o.keys())
+                if ks:
+                    o[ks[0]] = o[ks[0]] + 5
+                o["__z"] = 3
+            elif isinstance(o, nx.Graph):
+                for n, d in o.nodes(data=True):
+                    for k in list(d):
+                        if isinstance(d[k], str):
+                            d[k] = d[k] + "~"
+                    d["mol"] = "__m"
+                for u, v, d in o.edges(data=True):
+                    for k, val in list(d.items()):
+                        if isinstance(val, set):
+                            val.add("__z")
+                        elif isinstance(val, dict):
+                            val["__z"] = 9
+                            for kk in list(val)[:1]:
+                                val[kk] = 77
+                        elif isinstance(val, int):
+                            d[k] = val + 7
+                ns = list(o.nodes)
+                if ns:
+                    o.remove_node(ns[0])
+            elif isinstance(o, list):
+                del o[:]
+        except (KeyError, ValueError):
+            pass
 
 
 def _edges_of(H):
@@ -106,7 +213,7 @@ def _net_obs(H, rule_of=None, sort_order=False):
         sorted(H.edges.keys()) if sort_order else list(H.edges.keys()),
         S([[k, S(sorted(v))] for k, v in H.species_to_in_edges.items()]),
         S([[k, S(sorted(v))] for k, v in H.species_to_out_edges.items()]),
-        S([[k, v] for k, v in H.species_to_mol.items()]),
+        S([[k, _molenc(v)] for k, v in H.species_to_mol.items()]),
     ]
 
 
@@ -125,19 +232,23 @@ def _opt(d, k):
     return [d[k]] if k in d else []
 
 
+def _optmol(d):
+    return [_molenc(d["mol"])] if "mol" in d else []
+
+
 def _nid(n):
     return [0, n] if isinstance(n, int) else [1, n]
 
 
 def _bip_obs(G):
-    nodes = [[_nid(n), _opt(d, "bipartite"), _opt(d, "label"), _opt(d, "kind"), _opt(d, "mol"), _opt(d, "edge_id")]
+    nodes = [[_nid(n), _opt(d, "bipartite"), _opt(d, "label"), _opt(d, "kind"), _optmol(d), _opt(d, "edge_id")]
              for n, d in G.nodes(data=True)]
     arcs = [[_nid(u), _nid(v), _opt(d, "stoich"), _opt(d, "role")] for u, v, d in G.edges(data=True)]
     return [S(nodes), S(arcs)]
 
 
 def _sg_obs(G):
-    nodes = [[n, _opt(d, "label"), _opt(d, "kind"), _opt(d, "mol")] for n, d in G.nodes(data=True)]
+    nodes = [[n, _opt(d, "label"), _opt(d, "kind"), _optmol(d)] for n, d in G.nodes(data=True)]
     arcs = [[u, v, S(sorted(d["via"])), S(sorted(d["rules"])), int(d["stoich_r"]), int(d["stoich_p"]),
              {k: int(c) for k, c in d["stoich_r_map"].items()}, {k: int(c) for k, c in d["stoich_p_map"].items()}]
             for u, v, d in G.edges(data=True)]
@@ -151,21 +262,56 @@ def _export_bip(H, fl):
                                    integer_ids=fl["int"], include_edge_id_attr=fl["eid"], include_mol=fl["mol"])
 
 
-def _run_view(H, v):
+def _asbip_kwargs(kw):
+    m = {"sp": "species_prefix", "rp": "reaction_prefix", "int": "integer_ids", "st": "include_stoich"}
+    return {m[k]: v for k, v in kw.items()}
+
+
+def _asbip_flags(kw):
+    """what _as_bipartite(H, **kw) must build: its own defaults (integer ids!), roles, isolated species, no ids, no mol"""
+    return bflags(sp=kw.get("sp", "S:"), rp=kw.get("rp", "R:"), bv=(0, 1), st=kw.get("st", True), ro=True, iso=True,
+                  int_=kw.get("int", True), eid=False, mol=False)
+
+
+def _backend_flags(int_, st):
+    return bflags(sp=None, rp=None, bv=(0, 1), st=st, ro=True, iso=True, int_=int_, eid=False, mol=False)
+
+
+def _items_input(form, items):
+    """the (line, rule) items in the input form asked for; returns (positional argument, extra kwargs, effective items)"""
+    if form == "mapping":
+        d = {}
+        for line, r in items:
+            d[line] = r
+        return d, {}, [[k, v] for k, v in d.items()]
+    if form == "rules":
+        return [line for line, _ in items], {"rules": [r for _, r in items]}, items
+    if form == "tuples3":
+        return [(line, r, "extra") for line, r in items], {}, items
+    return [(line, r) for line, r in items], {}, items
+
+
+def _run_view(H, v, ret=None):
+    """observable of one view; objects handed back to the caller are appended to [ret]"""
     from synkit.CRN.Hypergraph import conversion as cv
     from synkit.CRN.Hypergraph.hypergraph import CRNHyperGraph
     from synkit.CRN.Hypergraph.rxn import RXNSide
+    ret = [] if ret is None else ret
+
+    def keep(x):
+        ret.append(x)
+        return x
     k = v[0]
     if k == "bip":
         _, fl, do_imp, mol_attr = v
-        G = _export_bip(H, fl)
+        G = keep(_export_bip(H, fl))
         out = [_bip_obs(G)]
         if do_imp:
-            out.append(_guard(lambda: _net_obs(cv.bipartite_to_hypergraph(G, mol_attr=("mol" if mol_attr else None)))))
+            out.append(_guard(lambda: _net_obs(keep(cv.bipartite_to_hypergraph(G, mol_attr=("mol" if mol_attr else None))))))
         return out
     if k == "sg":
         _, inc_mol, mol_attr = v
-        G = cv.hypergraph_to_species_graph(H, include_mol=inc_mol)
+        G = keep(cv.hypergraph_to_species_graph(H, include_mol=inc_mol))
         merged = {}
         for _, _, d in G.edges(data=True):
             for e in d["via"]:
@@ -176,30 +322,71 @@ def _run_view(H, v):
             return [e.rule if len(u) == 1 else "", e.rule in u]
         return [_sg_obs(G),
                 # the order of add_rxn calls follows set iteration over via: insertion order is not observable here
-                _guard(lambda: _net_obs(cv.species_graph_to_hypergraph(G, mol_attr=("mol" if mol_attr else None)), rule_of, True))]
+                _guard(lambda: _net_obs(keep(cv.species_graph_to_hypergraph(G, mol_attr=("mol" if mol_attr else None))), rule_of, True))]
     if k == "str":
         _, inc_rule, inc_id, srt, dr, ps, pf = v
-        lines = cv.hypergraph_to_rxn_strings(H, include_rule_suffix=inc_rule, include_edge_id=inc_id, sort=srt)
-        return [list(lines), _guard(lambda: _net_obs(cv.rxns_to_hypergraph(lines, default_rule=dr, parse_rule_from_suffix=ps,
-                                                                            prefer_suffix=pf)))]
+        lines = keep(cv.hypergraph_to_rxn_strings(H, include_rule_suffix=inc_rule, include_edge_id=inc_id, sort=srt))
+        return [list(lines), _guard(lambda: _net_obs(keep(cv.rxns_to_hypergraph(list(lines), default_rule=dr, parse_rule_from_suffix=ps,
+                                                                                 prefer_suffix=pf))))]
     if k == "side":
-        return _guard(lambda: dict(RXNSide.from_str(v[1]).to_dict()))
+        return _guard(lambda: dict(keep(RXNSide.from_str(v[1])).to_dict()))
     if k == "line":
         def go():
-            H2 = CRNHyperGraph()
+            H2 = keep(CRNHyperGraph())
             H2.add_rxn_from_str(v[1], v[2], parse_rule_from_suffix=v[3])
             return _net_obs(H2)
         return _guard(go)
     if k == "parse":
-        return _guard(lambda: _net_obs(cv.rxns_to_hypergraph(v[1], default_rule=v[2], parse_rule_from_suffix=v[3], prefer_suffix=v[4])))
+        return _guard(lambda: _net_obs(keep(cv.rxns_to_hypergraph(v[1], default_rule=v[2], parse_rule_from_suffix=v[3], prefer_suffix=v[4]))))
+    if k == "items":
+        _, form, items, dr, ps, pf = v
+        arg, extra, _ = _items_input(form, [tuple(x) for x in items])
+
+        def go():
+            H2 = keep(CRNHyperGraph())
+            H2.parse_rxns(arg, default_rule=dr, parse_rule_from_suffix=ps, prefer_suffix=pf, **extra)
+            return _net_obs(H2)
+        return _guard(go)
+    if k == "asbip":
+        return [_bip_obs(keep(cv._as_bipartite(H, **_asbip_kwargs(v[1]))))]
+    if k == "assg":
+        return [_sg_obs(keep(cv._as_species_graph(H)))]
+    if k == "backend":
+        from synkit.CRN.Hypergraph.backend import _CRNGraphBackend
+        _, inc_rule, int_, st = v
+        b = _CRNGraphBackend(H, include_rule=inc_rule, integer_ids=int_, include_stoich=st)
+        G = b.G
+        if b.graph_type != ("bipartite" if inc_rule else "species") or b.G is not G:
+            return ["backend: wrong graph_type or the cached view is rebuilt"]
+        keep(G)
+        return [_bip_obs(G)] if inc_rule else [_sg_obs(G)]
     raise AssertionError(k)
 
 
+def _run_views(H, views, hist):
+    out = []
+    for v in views:
+        ret = []
+        out.append(_run_view(H, v, ret))
+        if hist:
+            _scramble(ret)          # the caller edits everything it was handed before the next call
+    return out
+
+
 def impl(case):
-    H = build(case.get("net", {}))
+    net = case.get("net", {})
+    hist = bool(case.get("hist"))
+    H = build(net)
     before = _net_obs(H)
-    views = [_run_view(H, v) for v in case["views"]]
-    return [before] + views + [_net_obs(H)]          # all views run on ONE object; it must come out unchanged
+    views = _run_views(H, case["views"], hist)
+    first = [before] + views + [_net_obs(H)]      # all views run on ONE object; it must come out unchanged
+    if "edits" not in case:
+        return first
+    for ed in case["edits"]:                        # the SAME object is edited in place, then viewed again
+        _apply_edit(H, ed)
+    before2 = _net_obs(H)
+    views2 = _run_views(H, case["views2"], hist)
+    return [first, [before2] + views2 + [_net_obs(H)]]
 
 
 # ------------------------------------------------------------------ model encoder
@@ -218,7 +405,7 @@ def _side(l):
 def _net(net):
     kept = clist([cs(x) for x in net.get("kept", [])])
     rx = clist([cpair(copt(None if e is None else cs(e)), cs(rule or ""), _side(l), _side(r)) for e, rule, l, r in net.get("rxns", [])])
-    ml = clist([cpair(cs(a), cs(b)) for a, b in net.get("mol", [])])
+    ml = clist([cpair(cs(a), cs(_molenc(_molval(b)))) for a, b in net.get("mol", [])])
     return "(mk_net %s %s %s)" % (kept, rx, ml)
 
 
@@ -243,14 +430,43 @@ def _view(v):
         return "VLine %s %s %s" % (cs(v[1]), copt(None if v[2] is None else cs(v[2])), cbool(v[3]))
     if k == "parse":
         return "VParse %s %s %s %s" % (clist([cs(x) for x in v[1]]), cs(v[2]), cbool(v[3]), cbool(v[4]))
+    if k == "items":
+        _, form, items, dr, ps, pf = v
+        _, _, eff = _items_input(form, [tuple(x) for x in items])
+        return "VItems %s %s %s %s" % (clist([cpair(cs(line), copt(None if r is None else cs(r))) for line, r in eff]),
+                                       cs(dr), cbool(ps), cbool(pf))
+    if k == "asbip":
+        return _view(["bip", _asbip_flags(v[1]), False, False])
+    if k == "assg":
+        return "VSgX false"
+    if k == "backend":
+        return _view(["bip", _backend_flags(v[2], v[3]), False, False]) if v[1] else "VSgX false"
     raise AssertionError(k)
+
+
+def _edit(ed):
+    k = ed[0]
+    if k == "add":
+        return "EAdd %s %s %s %s" % (copt(None if ed[1] is None else cs(ed[1])), cs(ed[2] or ""), _side(ed[3]), _side(ed[4]))
+    if k == "rm_rxn":
+        return "ERmRxn %s" % cs(ed[1])
+    if k == "rm_sp":
+        return "ERmSp %s %s" % (cs(ed[1]), cbool(ed[2]))
+    if k == "mol":
+        return "EMol %s %s" % (cs(ed[1]), cs(_molenc(_molval(ed[2]))))
+    raise AssertionError(ed)
 
 
 def coq_case(case):
     vs = [_view(v) for v in case["views"]]
     if any(v is None for v in vs):
         return None
-    return "run_case %s %s" % (_net(case.get("net", {})), clist(vs))
+    if "edits" not in case:
+        return "run_case %s %s" % (_net(case.get("net", {})), clist(vs))
+    vs2 = [_view(v) for v in case["views2"]]
+    if any(v is None for v in vs2):
+        return None
+    return "run_case2 %s %s %s %s" % (_net(case.get("net", {})), clist(vs), clist(["(%s)" % _edit(e) for e in case["edits"]]), clist(vs2))
 
 
 # ------------------------------------------------------------------ property oracle (independent of the model)
@@ -281,70 +497,111 @@ def _names_ok(fl, H, edges):
     return not (spn & rxn)
 
 
-def oracle(case):
+def _oracle_view(H, vi, v, edges, mol, occ, ret):
+    """one round trip on H judged against the expected reactions / labels (computed from a FRESH build); objects handed to
+    the caller go to [ret]"""
     from collections import Counter
     from synkit.CRN.Hypergraph import conversion as cv
     fails = []
-    if "net" not in case:
-        return fails
-    for vi, v in enumerate(case["views"]):
-        H = build(case["net"])
-        edges = _edges_of(H)
-        mol = dict(H.species_to_mol)
+    k = v[0]
+    if k == "bip":
+        _, fl, do_imp, mol_attr = v
+        # the flag combinations that claim invertibility: ids and coefficients are exported
+        if not (do_imp and fl["eid"] and fl["st"]):
+            return fails
+        clash = not _names_ok(fl, H, edges)     # un-prefixed string ids: a species label equals a reaction id (known finding)
+        try:
+            G = _export_bip(H, fl)
+            ret.append(G)
+            H2 = cv.bipartite_to_hypergraph(G, mol_attr=("mol" if mol_attr else None))
+            ret.append(H2)
+            e2 = _edges_of(H2)
+            got = {s_: _molenc(m) for s_, m in H2.species_to_mol.items()}
+        except (KeyError, ValueError) as ex:
+            e2, got = "raised %r" % (ex,), {}
+        bad = []
+        if e2 != edges:
+            bad.append(dict(clause="bipartite-roundtrip", detail="view %d %r: reactions %r came back as %r" % (vi, fl, edges, e2)))
+        elif fl["mol"] and mol_attr:
+            # every label of a species that occurs in a reaction comes back, and nothing is invented
+            # (a label on a kept, reaction-less species may or may not survive: the property is about reactions)
+            want = {s_: m for s_, m in mol.items() if s_ in occ}
+            if any(s_ not in got or got[s_] != m for s_, m in want.items()) or any(s_ not in mol or mol[s_] != m for s_, m in got.items()):
+                bad.append(dict(clause="bipartite-mol", detail="view %d %r: molecule labels %r came back as %r"
+                                % (vi, fl, want, got)))
+        for b in bad:
+            if clash:
+                b["key"] = KEY_NAME_CLASH
+            fails.append(b)
+    elif k == "str":
+        _, inc_rule, inc_id, srt, dr, ps, pf = v
+        if not (inc_rule and ps):
+            return fails
+        in_domain = _valid_strings_domain(edges)   # outside it the text format is ambiguous (known finding)
+        lines = cv.hypergraph_to_rxn_strings(H, include_rule_suffix=inc_rule, include_edge_id=inc_id, sort=srt)
+        ret.append(lines)
+        a = Counter(repr((r, sorted(l.items()), sorted(p_.items()))) for r, l, p_ in edges.values())
+        try:
+            H2 = cv.rxns_to_hypergraph(list(lines), default_rule=dr, parse_rule_from_suffix=ps, prefer_suffix=pf)
+            ret.append(H2)
+            back = _edges_of(H2)
+            b = Counter(repr((r, sorted(l.items()), sorted(p_.items()))) for r, l, p_ in back.values())
+        except (KeyError, ValueError, IndexError) as ex:
+            back, b = "raised %r" % (ex,), None
+        if a != b:
+            f = dict(clause="strings-roundtrip", detail="view %d: %r printed as %r parsed as %r" % (vi, edges, list(lines), back))
+            if not in_domain:
+                f["key"] = KEY_LABEL_DOMAIN
+            fails.append(f)
+    elif k == "sg":
+        if not all(l and r for _, l, r in edges.values()):
+            return fails
+        G = cv.hypergraph_to_species_graph(H, include_mol=v[1])
+        ret.append(G)
+        H2 = cv.species_graph_to_hypergraph(G, mol_attr=("mol" if v[2] else None))
+        ret.append(H2)
+        a = {e: (l, r) for e, (_, l, r) in edges.items()}
+        b = {e: (l, r) for e, (_, l, r) in _edges_of(H2).items()}
+        if a != b:
+            fails.append(dict(clause="species-graph-roundtrip", detail="view %d: %r came back as %r" % (vi, a, b)))
+    return fails
+
+
+def _oracle_batch(net, edits, views, H, hist, tag):
+    """every step of a history is judged: H is the shared (possibly edited in place) object, the expectation comes from a
+    fresh build of the same network (+ the same edits) that no converter has ever seen"""
+    fails = []
+    for vi, v in enumerate(views):
+        Hf = build(net, edits)
+        edges = _edges_of(Hf)
+        mol = {s_: _molenc(m) for s_, m in Hf.species_to_mol.items()}
         occ = _occurring(edges)
-        k = v[0]
-        if k == "bip":
-            _, fl, do_imp, mol_attr = v
-            # the flag combinations that claim invertibility: ids and coefficients are exported
-            if not (do_imp and fl["eid"] and fl["st"]):
-                continue
-            clash = not _names_ok(fl, H, edges)     # un-prefixed string ids: a species label equals a reaction id (known finding)
-            try:
-                H2 = cv.bipartite_to_hypergraph(_export_bip(H, fl), mol_attr=("mol" if mol_attr else None))
-                e2 = _edges_of(H2)
-                got = dict(H2.species_to_mol)
-            except (KeyError, ValueError) as ex:
-                e2, got = "raised %r" % (ex,), {}
-            bad = []
-            if e2 != edges:
-                bad.append(dict(clause="bipartite-roundtrip", detail="view %d %r: reactions %r came back as %r" % (vi, fl, edges, e2)))
-            elif fl["mol"] and mol_attr:
-                # every label of a species that occurs in a reaction comes back, and nothing is invented
-                # (a label on a kept, reaction-less species may or may not survive: the property is about reactions)
-                want = {s: m for s, m in mol.items() if s in occ}
-                if any(got.get(s, None) != m or s not in got for s, m in want.items()) or any(s not in mol or mol[s] != m for s, m in got.items()):
-                    bad.append(dict(clause="bipartite-mol", detail="view %d %r: molecule labels %r came back as %r"
-                                    % (vi, fl, want, got)))
-            for b in bad:
-                if clash:
-                    b["key"] = KEY_NAME_CLASH
-                fails.append(b)
-        elif k == "str":
-            _, inc_rule, inc_id, srt, dr, ps, pf = v
-            if not (inc_rule and ps):
-                continue
-            in_domain = _valid_strings_domain(edges)   # outside it the text format is ambiguous (known finding)
-            lines = cv.hypergraph_to_rxn_strings(H, include_rule_suffix=inc_rule, include_edge_id=inc_id, sort=srt)
-            a = Counter(repr((r, sorted(l.items()), sorted(p.items()))) for r, l, p in edges.values())
-            try:
-                H2 = cv.rxns_to_hypergraph(lines, default_rule=dr, parse_rule_from_suffix=ps, prefer_suffix=pf)
-                back = _edges_of(H2)
-                b = Counter(repr((r, sorted(l.items()), sorted(p.items()))) for r, l, p in back.values())
-            except (KeyError, ValueError, IndexError) as ex:
-                back, b = "raised %r" % (ex,), None
-            if a != b:
-                f = dict(clause="strings-roundtrip", detail="view %d: %r printed as %r parsed as %r" % (vi, edges, lines, back))
-                if not in_domain:
-                    f["key"] = KEY_LABEL_DOMAIN
-                fails.append(f)
-        elif k == "sg":
-            if not all(l and r for _, l, r in edges.values()):
-                continue
-            H2 = cv.species_graph_to_hypergraph(cv.hypergraph_to_species_graph(H, include_mol=v[1]), mol_attr=("mol" if v[2] else None))
-            a = {e: (l, r) for e, (_, l, r) in edges.items()}
-            b = {e: (l, r) for e, (_, l, r) in _edges_of(H2).items()}
-            if a != b:
-                fails.append(dict(clause="species-graph-roundtrip", detail="view %d: %r came back as %r" % (vi, a, b)))
+        Hv = H if H is not None else build(net, edits)
+        ret = []
+        for f in _oracle_view(Hv, vi, v, edges, mol, occ, ret):
+            f["detail"] = tag + f["detail"]
+            fails.append(f)
+        if hist:
+            _scramble(ret)
+        if H is not None and _edges_of(H) != edges:
+            fails.append(dict(clause="source-network-changed", detail="%sview %d %r changed the exported network: %r, expected %r"
+                              % (tag, vi, v[0], _edges_of(H), edges)))
+            break
+    return fails
+
+
+def oracle(case):
+    if "net" not in case:
+        return []
+    net = case["net"]
+    hist = bool(case.get("hist"))
+    shared = hist or "edits" in case
+    H = build(net) if shared else None            # history cases: ONE object through all steps, as in impl()
+    fails = _oracle_batch(net, (), case["views"], H, hist, "")
+    if "edits" in case:
+        for ed in case["edits"]:
+            _apply_edit(H, ed)
+        fails += _oracle_batch(net, case["edits"], case["views2"], H, hist, "after in-place edits: ")
     return fails[:6]
 
 
@@ -389,6 +646,8 @@ def neighbours(case, rng):
 
 
 def nontrivial(case, obs):
+    if "edits" in case:
+        return bool(case.get("net", {}).get("rxns"))
     if case.get("net", {}).get("rxns"):
         return any(isinstance(o, list) and len(o) == 2 and isinstance(o[1], list) and o[1] and o[1][0] == 0 for o in obs[1:-1])
     return any(isinstance(o, list) and len(o) == 2 and o[0] == 0 and o[1] for o in obs[1:-1])
@@ -399,7 +658,13 @@ def distribution(cases, obss):
              nets_with_catalyst=0, nets_with_repeated_reaction=0, nets_with_source_or_sink=0, nets_with_multidigit_coeff=0,
              nets_with_kept_species=0, nets_with_mol=0, nets_outside_label_domain=0, nets_with_name_collision=0,
              fuzz_texts=0, fuzz_errors=0, max_coeff=0)
+    d["history_cases"] = sum(1 for c in cases if c.get("hist"))
+    d["edit_in_place_cases"] = sum(1 for c in cases if "edits" in c)
+    d["nets_with_falsy_mol"] = sum(1 for c in cases if any(_molenc(_molval(m)) in ("i:0", "s:", "b:False", "f:0.0", "t:()", "n:")
+                                                           for _, m in c.get("net", {}).get("mol", [])))
     for c, obs in zip(cases, obss):
+        if "edits" in c:
+            obs = obs[0] if isinstance(obs, list) and obs else obs
         net = c.get("net", {})
         rx = net.get("rxns", [])
         if rx:
@@ -495,13 +760,15 @@ def _small_net(rng, rxs):
     for (l, r) in rxs:
         out.append([None, rng.choice(rules), [[labs[i], k * rng.choice([1, 2, 3, 12])] for i, k in l],
                     [[labs[i], k * rng.choice([1, 2, 3, 12])] for i, k in r]])
-    mol = [[labs[i], "m%d" % i] for i in range(3) if rng.random() < 0.4]
+    mol = [[labs[i], rng.choice(["m%d" % i, "m%d" % i, ["i", i], rng.choice(DEGENERATE_MOLS)])] for i in range(3) if rng.random() < 0.4]
     return dict(kept=[], rxns=out, mol=mol)
 
 
+# molecule labels are 'Any' in the API: falsy and non-string values (0-based integer ids, "", False, 0.0, (), None)
+DEGENERATE_MOLS = [["i", 0], ["i", 0], "", ["b", False], ["b", True], ["f", 0.0], ["t", []], ["t", [1, 2]], ["n"], ["i", -1], ["i", 10 ** 12]]
 SPECIES_POOL = ["A", "B", "C", "D", "E", "F2", "G_1", "Cl2", "H2O", "e5", "Na", "x", "Y_", "r", "R1",
                 "CC(=O)O", "C#C", "Fe(OH)3", "c1ccccc1", "C=O", "C[C@@H](O)C", "N.N", "C-C", "O=C=O", "CC(C)(C)O"]
-ADV_LABELS = ["[OH-]", "[Na+]", "Na+", "(C)", "=O", "#N", "@x", ".A", "-B", "[C@H]", "_x", "2A", "A B", "A+B", "r_1", "r_2", "R2_1", "S:A", "R:r_1", "x|y", "a>>b", "3", "A*", "-", "rule=z", "1_0", " A"]
+ADV_LABELS = ["", "0", "[OH-]", "[Na+]", "Na+", "(C)", "=O", "#N", "@x", ".A", "-B", "[C@H]", "_x", "2A", "A B", "A+B", "r_1", "r_2", "R2_1", "S:A", "R:r_1", "x|y", "a>>b", "3", "A*", "-", "rule=z", "1_0", " A"]
 RULE_POOL = ["r", "R1", "R2", "k_f", "q_1", "", "r_1"]
 ADV_RULES = ["a b", "x|y", "rule=q", "id=3", "7"]
 COEFFS = [1, 1, 1, 1, 1, 2, 2, 2, 3, 3, 12, 36, 100, 1000, 7, 4096, 1234567]
@@ -540,7 +807,7 @@ def _rand_net(rng, nsp=None, nrx=None, adversarial=False):
         if z < 0.6:
             eid = None
         else:
-            eid = rng.choice(["x", "e%d" % len(rxns), "%s_%d" % (rule or "r", rng.randint(1, 3)), "r_10", "R:r_1", "S:A"]
+            eid = rng.choice(["x", "e%d" % len(rxns), "", "0", "%s_%d" % (rule or "r", rng.randint(1, 3)), "r_10", "R:r_1", "S:A"]
                              + ([rng.choice(pool)] if adversarial else []))
             if eid in used:
                 eid = None
@@ -549,7 +816,8 @@ def _rand_net(rng, nsp=None, nrx=None, adversarial=False):
         rxns.append([eid, rule, l, r])
     kept = [rng.choice(["K", "K2", "Zz"])] if rng.random() < 0.15 else []
     cand = pool + kept
-    mol = [[s, rng.choice(["CCO", "m1", "O=C=O", "mol 2", "[H+]"])] for s in cand if rng.random() < 0.3]
+    mol = [[s, rng.choice(["CCO", "m1", "O=C=O", "mol 2", "[H+]", ["i", rng.randint(0, 12)], rng.choice(DEGENERATE_MOLS)])]
+           for s in cand if rng.random() < 0.3]
     return dict(kept=kept, rxns=rxns, mol=mol)
 
 
@@ -615,6 +883,82 @@ def gen_cases(tier, rng):
                       ([[E_, c]], [[E_, c]]), ([[S_, 1], [E_, c]], [[P_, 1], [E_, c]]), ([[E_, c]], [[E_, c + 1]]):
                 net = dict(kept=[], rxns=[[None, "r", rx[0], rx[1]], [None, "q", [[S_, 2]], [[P_, c]]]], mol=[[E_, "enz"]])
                 cases.append(dict(kind="pure-catalyst", net=net, views=_std_views(rng)))
+    # ---- HISTORIES: all steps of a case run on ONE network object in ONE process; after every step the caller edits, in
+    #      place, whatever it was handed (parsed networks incl. their sides, exported graphs, line lists: _scramble); every
+    #      step must still equal the fresh (pure) evaluation.  Repeated identical views, networks that repeat side texts.
+    def hist_views():
+        a, b, c = _std_views(rng)
+        b[1] = b[5] = True
+        z = rng.random()
+        if z < 0.3:
+            return [b, b, b]
+        if z < 0.5:
+            return [a, a, c, c]
+        return [b, a, c, b, a, c, b]
+    nh = 50 if quick else 300
+    for t in range(nh):
+        net = _small_net(rng, [R[i] for i in rng.sample(range(len(R)), rng.randint(1, 3))])
+        cases.append(dict(kind="hist-small", net=net, views=hist_views(), hist=True))
+    for t in range(nh):
+        net = _rand_net(rng, nsp=rng.randint(2, 6), nrx=rng.randint(2, 8))
+        if net["rxns"]:                                   # several reactions print the same side text
+            l0, r0 = net["rxns"][0][2], net["rxns"][0][3]
+            net["rxns"].append([None, "h", [list(q) for q in l0], [["Zq", 2]]])
+            net["rxns"].append([None, "h", [["Zq", 1]], [list(q) for q in r0] or [["Zq", 3]]])
+        cases.append(dict(kind="hist-random", net=net, views=hist_views(), hist=True))
+    for t in range(12 if quick else 60):                  # the parser alone: the same texts again after the caller edited the results
+        texts = [_fuzz_text(rng, FUZZ_ALPHA, 7) for _ in range(8)] + ["2A + B", "A + W", "12Cl2+A", "A"]
+        lines = [_fuzz_line(rng) for _ in range(4)] + ["A + W >> B | rule=h", "2B >> C + W", "A + W >> 12D | rule=s"]
+        vs = [["side", x] for x in texts] + [["line", x, None, True] for x in lines] + [["parse", lines, "r", True, False]]
+        cases.append(dict(kind="hist-parser", views=vs + vs, hist=True))
+    # ---- the SAME network object edited in place between two batches of views (add / remove reaction / remove species /
+    #      relabel): a view memoised per object, or derived data not refreshed, would show in the second batch
+    for t in range(60 if quick else 400):
+        net = _rand_net(rng, nsp=rng.randint(2, 6), nrx=rng.randint(1, 6))
+        sp = sorted({q[0] for _, _, l, r in net["rxns"] for q in l + r}) or ["A"]
+        eds = []
+        for _ in range(rng.randint(1, 3)):
+            z = rng.random()
+            if z < 0.35:
+                eds.append(["add", rng.choice([None, None, "new", "r_1"]), rng.choice(["r", "R9", ""]),
+                            [[rng.choice(sp + ["Nw"]), rng.choice(COEFFS)]], [[rng.choice(sp + ["Nw2"]), rng.choice(COEFFS)]] if rng.random() < 0.8 else []])
+            elif z < 0.55:
+                eds.append(["rm_rxn", rng.choice(["r_1", "r_2", "x", "R1_1", "e0", "nope"])])
+            elif z < 0.8:
+                eds.append(["rm_sp", rng.choice(sp + ["nope"]), rng.random() < 0.7])
+            else:
+                eds.append(["mol", rng.choice(sp), rng.choice(["CC", ["i", 0], rng.choice(DEGENERATE_MOLS)])])
+        cases.append(dict(kind="edit-in-place", net=net, views=_std_views(rng), edits=eds, views2=_std_views(rng), hist=rng.random() < 0.5))
+    # ---- wrappers / facades of the converters: _as_bipartite (own defaults: integer ids), _as_species_graph, _CRNGraphBackend
+    for t in range(10 if quick else 60):
+        net = _rand_net(rng, nsp=rng.randint(1, 6), nrx=rng.randint(0, 6))
+        vs = [["asbip", {}], ["asbip", {"int": False}], ["asbip", {"st": False}], ["asbip", {"sp": "X:", "rp": "Y:", "int": False, "st": False}],
+              ["asbip", {"rp": "Q/", "int": True}], ["assg"]]
+        vs += [["backend", a, b, c] for a in (True, False) for b in (True, False) for c in (True, False)]
+        rng.shuffle(vs)
+        cases.append(dict(kind="wrappers", net=net, views=vs, hist=(t % 2 == 1)))
+    # ---- parse_rxns with explicit per-line rules: tuples, longer tuples, a mapping, lines zipped with rules=; prefer_suffix
+    for t in range(30 if quick else 200):
+        vs = []
+        for _ in range(6):
+            items = []
+            for _ in range(rng.randint(0, 4)):
+                line = rng.choice([_fuzz_line(rng), "A + 2B >> C | rule=S1", "A>>B|rule = S2", "A >> B", "2 X >> Y | id=3", "A >> B | rules=Q"])
+                items.append([line, rng.choice([None, None, "Rx", "", "a b", "E_1"])])
+            vs.append(["items", rng.choice(["tuples", "tuples", "tuples3", "mapping", "rules"]), items, rng.choice(["r", "dflt"]),
+                       rng.random() < 0.7, rng.random() < 0.5])
+        cases.append(dict(kind="parse-items", views=vs))
+    # ---- sizes: >= 100 species / reactions (three-digit integer node ids, generated ids r_100..)
+    for t in range(2 if quick else 6):
+        n = rng.randint(100, 130)
+        pool = ["M%d" % i for i in range(n)]
+        rxns = []
+        for i in range(rng.randint(100, 140)):
+            l = [[x, rng.choice(COEFFS)] for x in rng.sample(pool, rng.choice([1, 1, 2, 3]))]
+            r = [[x, rng.choice(COEFFS)] for x in rng.sample(pool, rng.choice([1, 1, 2, 3]))]
+            rxns.append([None, rng.choice(["r", "r", "r", "big"]), l, r])
+        mol = [[x, ["i", i]] for i, x in enumerate(pool) if i % 7 == 0]
+        cases.append(dict(kind="big", net=dict(kept=[], rxns=rxns, mol=mol), views=_std_views(rng)))
     # ---- many reactions under one rule: generated ids r_10.. (sorted as strings before r_2), two-digit integer node ids
     for t in range(12 if quick else 60):
         net = _rand_net(rng, nsp=rng.randint(6, 10), nrx=rng.randint(11, 15))
@@ -629,7 +973,10 @@ def gen_cases(tier, rng):
             for int_ in (False, True):
                 if int_ and (sp, rp) != ("S:", "R:"):
                     continue
-                cases.append(dict(kind="flag-sweep", net=net, views=_all_bip_views(sp, rp, int_, (0, 1) if t % 2 == 0 else (5, 7))))
+                vs_ = _all_bip_views(sp, rp, int_, (0, 1) if t % 2 == 0 else (5, 7))
+                if t % 2 == 1:
+                    rng.shuffle(vs_)                      # non-default options first, defaults later (and the reverse)
+                cases.append(dict(kind="flag-sweep", net=net, views=vs_, hist=(t % 4 >= 2)))
         svs = []
         for inc_rule, inc_id, srt, ps, pf in itertools.product([True, False], repeat=5):
             svs.append(["str", inc_rule, inc_id, srt, "dflt", ps, pf])
